@@ -165,14 +165,23 @@ CHECKS = {
          'closed under the global context.')),
  'C05': dict(
    design_ref='§6 C05',
-   technique='Coq proofs about make_rabin_transducer translated from gr1.py on every run (tie T; proved equal to a structured model); two machine-checked refutation witnesses (known findings F3, F12); correspondence + closed-loop search',
+   technique='Coq proofs about make_rabin_transducer translated from gr1.py on every run (tie T; proved equal to a structured model) composed with the translated solve_rabin_game: refinement, Moore independence, memory ranges, closure of the winning region, liveness of every infinite behaviour; two machine-checked refutation witnesses for non-blocking (known findings F3, F12); correspondence + closed-loop search',
    text=('make_rabin_transducer is translated from the current gr1.py on '
          'every run and proved equal to a structured Gallina model over the '
          'translated _controllable_action/step/_make_init/solver; proved for '
          'arbitrary iterates: every allowed step satisfies the specified '
          'component action under the mode causality rule; Moore '
          'implementations do not depend on next environment values; both '
-         'memory variables stay in range. Absence of '
+         'memory variables stay in range. Proved for the model composed with '
+         'the GENERATED solve_rabin_game (loop invariants give the structure '
+         'of zk, yki, xkijr; all four modes, fuel >= number of valuations): '
+         'whenever the environment keeps its action every allowed step, from '
+         'any valuation and memory, lands in the winning region, so every '
+         'reachable state is winning (C05_region_closed, '
+         'C05_reachable_states_winning); every infinite closed-loop behaviour '
+         'in which the environment keeps its action eventually stays inside '
+         'one persistence predicate and visits every recurrence predicate '
+         'infinitely often, for any initial memory (C05_liveness). Absence of '
          'blocking is REFUTED on the faithful model by two kernel-checked '
          'witnesses (C05_refuted_dead_end = F3, C05_refuted_stale_hold = '
          'F12), reproduced on the real code and listed as known findings; '
@@ -180,7 +189,10 @@ CHECKS = {
          'liveness-violating fair cycle found by the closed-loop search on '
          'the real implementation is reported as a violation.'),
    note=('Trusted: as C02. Known findings keyed rabin_blocks_env_deadend_plus_one '
-         'and rabin_blocks_stale_hold in KNOWN_FINDINGS.txt. No axioms.')),
+         'and rabin_blocks_stale_hold in KNOWN_FINDINGS.txt. Axioms: '
+         'C05_liveness depends on Classical_Prop.classic (standard library, '
+         'through L4/LiveLemma.v); every other theorem is closed under the '
+         'global context.')),
  'C12': dict(
    design_ref='§6 C12',
    technique='Coq invariant proof of a worklist model of _action_to_steps for any pick; verified checker evaluated in Coq on the graphs the real enumeration returns',
